@@ -17,7 +17,9 @@ EXPECTED_PROBES = ["fault.worker_failure", "probe.query_raised_by_injected_failu
 
 def generate(rnd, tier, index=0):
     regime = rnd.choice(["exact", "float"])
-    cfg, spare = gen.gen_cfg(rnd, with_np=rnd.random() < 0.75, allow_probs=False, scale=True)
+    # explicit empty-neighbourhood weights are allowed together with arm changes: a query that meets weights and arms
+    # of different lengths raises on queried and unqueried bandit alike, which is fine for this property
+    cfg, spare = gen.gen_cfg(rnd, with_np=rnd.random() < 0.75, allow_probs=True, scale=True)
     cfg["n_jobs"] = rnd.choice([1, 2, 3, 5, -1])
     cfg["backend"] = rnd.choice([None, "threading", "loky"])
     ctxl = is_contextual(cfg)
